@@ -7,7 +7,9 @@ coroutine, raising coroutine), and a program of per-run actions that are *clock 
 the loop fires the timer, how far the callback moves the virtual clock before returning (0, 0.3p,
 p-ulp, p, p+ulp, 2.5p, 1000p, an arbitrary factor, or *backwards* by one ulp / p/2 / 100p), how the
 clock moves while a coroutine invocation is in flight, stop() inside the callback / while the
-coroutine is running / between runs, and start() again.  Runs on the virtual loop; the observation is
+coroutine is running / between runs / from a *separate timer or add_callback due at exactly the same
+virtual instant as the periodic deadline* (registered before or after the periodic timer, so stop() lands
+before the handle fires or between the handle firing and _run's first step), and start() again.  Runs on the virtual loop; the observation is
 every deadline PeriodicCallback passes to ``io_loop.add_timeout`` (wrapped on the harness-owned loop
 instance) together with ``io_loop.time()`` at that moment, and the callback start/end trace.
 
@@ -21,7 +23,8 @@ Oracle (exact rationals, fractions.Fraction of the same floats; P = period in se
   run_time  a callback start is never before the most recently scheduled deadline (minus tol)
   overlap   a callback never starts while the previous (coroutine) invocation is in flight
   stop      no callback start after stop() returned, whatever is still pending
-Excluded (not generated): start() while a coroutine invocation is still in flight or without a
+Excluded (not generated): start() while a coroutine invocation is still in flight, while a fired-but-not-yet-
+started _run is pending (same-instant stop()+start() restarts only when the timer had not fired yet), or without a
 preceding stop() (two timers are armed; the statement speaks about stop orderings only).
 
 Sensitivity (quick tier, seed 1, one textual mutation at a time on a scratch copy):
@@ -31,7 +34,10 @@ Sensitivity (quick tier, seed 1, one textual mutation at a time on a scratch cop
   * _run: `_schedule_next()` before awaiting the coroutine (DESIGN)             -> caught (C39.run_before_scheduled_time / overlap)
   * stop(): timeout not removed (DESIGN, "stop not clearing _timeout")          -> caught after a restart (C39.run_before_scheduled_time)
   * stop(): timeout not removed AND `_run` without the `_running` guard         -> caught (C39.run_after_stop)
-  * `_run` without the `_running` guard alone                                   -> not caught: equivalent (stop() removes the timer)
+  * `_run` without the `if not self._running: return` guard alone               -> caught (C39.run_after_stop, seeds 1-3) since the
+    same-instant stop was added: a separate timer / add_callback at exactly the periodic deadline calls stop() after the
+    loop has fired the periodic handle (remove_timeout is then a no-op) but before _run's first step.  (Earlier version
+    of this check missed it and wrongly called the mutant equivalent.)
   * jitter one-sided: `1 + jitter * random()`                                   -> caught (C39.more_than_one_period_ahead)
   * no skipping: always `_next_timeout += period`                               -> caught (C39.before_current_time)
   * measured from now: `_next_timeout = now + period`                           -> caught (C39.off_grid)
@@ -57,7 +63,7 @@ RULE = (
     "Hypothesis cases: period from a pool of awkward floats (1us..1e7 ms, 0.1, 1/3, powers of two, timedelta) or a drawn "
     "float; start in {epoch-scale floats 1e9..4e9, small scale}; jitter in {0, 0.1, 1.0} with supplied random values; "
     "callback kind in {plain, raising, coro, coro_raising}; 1..30 per-run actions (loop lateness, in-callback clock move "
-    "incl. backwards, in-flight clock chunks, stop inside/while running/between runs, restart). non-trivial = a stall "
+    "incl. backwards, in-flight clock chunks, stop inside/while running/between runs/from a same-instant timer or add_callback, restart). non-trivial = a stall "
     "> P or a backwards move occurred, or P < 10 us at epoch scale; distinct = SHA-1 of the case"
 )
 ASSUMPTIONS = [
@@ -105,6 +111,7 @@ class Rec:
         self.inflight = False
         self.gate = None
         self.runaway = False
+        self.dispatch_pending = False
 
     def fail(self, clause, detail):
         self.failures.append((clause, detail))
@@ -161,7 +168,44 @@ async def _scn(case, rec):
                 rec.runaway = True
                 rec.fail("C39.runaway_rescheduling", {"n": len(rec.sched)})
             return orig_add(io.time() + 1e12, lambda: None)
-        return orig_add(deadline, callback, *a, **kw)
+        same = act_for(len(rec.starts))[6]  # action of the run this deadline is for
+
+        def dispatched():
+            # the loop has fired the periodic timer; PeriodicCallback._run is a coroutine whose first step
+            # only executes on the next loop iteration
+            rec.dispatch_pending = True
+            return callback()
+
+        if same == "none":
+            return orig_add(deadline, dispatched, *a, **kw)
+        epoch = rec.epoch
+        restart = same.endswith("_start")
+
+        def stopper():
+            if rec.stopped or rec.runaway or rec.epoch != epoch:
+                return
+            rec.labels.add("same_instant_stop")
+            if rec.dispatch_pending:
+                rec.labels.add("same_instant_stop_after_dispatch")
+            racing = rec.dispatch_pending
+            stop()
+            # stop()+start(): only where it is well defined (timer not yet fired / nothing in flight);
+            # restarting while a dispatched _run is pending is the excluded restart-in-flight class
+            if restart and not racing and not rec.inflight:
+                rec.epoch += 1
+                rec.labels.add("same_instant_restart")
+                start()
+
+        def helper():
+            io.add_callback(stopper)  # runs on the next iteration, like _run's first step
+
+        other = helper if same.startswith("cb_") else stopper
+        if "_before" in same:
+            orig_add(deadline, other)  # same deadline, same conversion => identical asyncio `when`
+            return orig_add(deadline, dispatched, *a, **kw)
+        h = orig_add(deadline, dispatched, *a, **kw)
+        orig_add(deadline, other)
+        return h
 
     io.add_timeout = add_timeout
 
@@ -175,6 +219,7 @@ async def _scn(case, rec):
         t = loop.time()
         n = sum(1 for s in rec.starts if s["epoch"] == rec.epoch)
         rec.starts.append({"t": t, "epoch": rec.epoch, "n": n, "back": rec.back})
+        rec.dispatch_pending = False
         if rec.stopped:
             rec.fail("C39.run_after_stop", {"t": t})
         if rec.inflight:
@@ -188,11 +233,11 @@ async def _scn(case, rec):
         return len(rec.starts) - 1
 
     def act_for(k):
-        return acts[k] if k < len(acts) else ("none", "0", True, (), False, "none")
+        return acts[k] if k < len(acts) else ("none", "0", True, (), False, "none", "none")
 
     def plain_cb():
         k = on_start()
-        pre, delay, stop_inside, chunks, stop_running, post = act_for(k)
+        pre, delay, stop_inside, chunks, stop_running, post, _same = act_for(k)
         base = loop.time()
         move_clock(_amount(delay, p, base))
         if loop.time() - base > p:
@@ -225,6 +270,7 @@ async def _scn(case, rec):
     def start():
         rec.stopped = False
         rec.back = False
+        rec.dispatch_pending = False
         rec.epoch_start.append(loop.time())
         pc.start()
 
@@ -235,7 +281,7 @@ async def _scn(case, rec):
     start()
     try:
         for k in range(len(acts) + 1):
-            pre, delay, stop_inside, chunks, stop_running, post = act_for(len(rec.starts))
+            pre, delay, stop_inside, chunks, stop_running, post, _same = act_for(len(rec.starts))
             nt = loop.next_timer()
             if nt is None or rec.stopped or rec.runaway:
                 break
@@ -388,8 +434,12 @@ DELAY = st.one_of(st.sampled_from(DELAY_POOL), st.sampled_from(DELAY_POOL), st.s
 PRE = st.sampled_from(["none", "none", "none", "none", "late0.3", "late1", "late2.5", "late1000", "backwait"])
 CHUNKS = st.sampled_from([(), (), ("0.3",), ("p",), ("p+ulp",), ("2.5",), ("1000",), ("0.3", "p+ulp"), ("p", "p", "p"), ("2.5", "0.3")])
 POST = st.sampled_from(["none"] * 12 + ["stop", "stop_start", "stop_start", "start", "start", "start"])
-# (pre, delay, stop_inside, chunks, stop_while_running, post); post "start" restarts only if the callback is stopped by then
-ACT = st.tuples(PRE, DELAY, st.sampled_from([False] * 11 + [True]), CHUNKS, st.sampled_from([False] * 8 + [True]), POST)
+# (pre, delay, stop_inside, chunks, stop_while_running, post, same); post "start" restarts only if the callback is stopped by then
+# same-instant stop: a separate timer registered for exactly the periodic deadline (before / after the periodic
+# timer), either stopping directly ("t_") or through an add_callback queued in that iteration ("cb_"); "_start" = stop()+start()
+SAME = st.sampled_from(["none"] * 40 + ["t_before", "t_after", "t_after", "cb_before", "cb_after",
+                                        "t_before_start", "t_after_start", "cb_before_start", "cb_after_start"])
+ACT = st.tuples(PRE, DELAY, st.sampled_from([False] * 11 + [True]), CHUNKS, st.sampled_from([False] * 8 + [True]), POST, SAME)
 
 CASE = st.fixed_dictionaries({
     "start": START,
